@@ -24,5 +24,57 @@ func init() {
 				"specificItem[arg] ok":             {"spec_existed", "bool"},
 			},
 			Ctors: hotspotCtors},
+
+		// C05: rejectTrafficShapingController.PerformChecking - dispatch, threshold selection, batch guard and
+		// ONE iteration of the refill / consume loop.  Trace: (1,[arg;v]) timeCounter.AddIfAbsent(arg,&v),
+		// (2,[arg;v]) tokenCounter.AddIfAbsent(arg,&v), (3,[arg]) tokenCounter.Get(arg), (4,[v]) StoreInt64(time
+		// cell, v), (5,[old;new]) CAS attempt on the token cell, (9,[arg]) the concurrency check.
+		target{Dir: "core/hotspot", Func: "rejectTrafficShapingController.PerformChecking", Name: "hotspot_reject_step", LoopBody: 1,
+			Hints: hotspotQPSHints(map[string]hint{
+				"atomic.LoadInt64(lastAddTokenTimePtr)": {"last_time", "int64"},
+				"atomic.LoadInt64(oldQpsPtr)":           {"rest_tokens", "int64"},
+				"tokenCounter.Get(arg)":                 {"", "opaque"},
+				"tokenCounter.Get(arg) ok":              {"token_found", "bool"},
+			}),
+			Acts: map[string]act{
+				"c.performCheckingForConcurrencyMetric": {Tag: 9, Keep: []int{0}, Ret: hint{"conc_result", "tokres"}},
+				"timeCounter.AddIfAbsent":               {Tag: 1, Keep: []int{0, 1}, Ret: hint{"", "opaque"}},
+				"tokenCounter.AddIfAbsent":              {Tag: 2, Keep: []int{0, 1}, Ret: hint{"", "opaque"}},
+				"tokenCounter.Get":                      {Tag: 3, Keep: []int{0}},
+				"atomic.StoreInt64":                     {Tag: 4, Keep: []int{1}},
+				"atomic.CompareAndSwapInt64":            {Tag: 5, Keep: []int{1, 2}, Ret: hint{"cas_ok", "bool"}},
+			},
+			Ctors: hotspotCtors},
+
+		// C05: throttlingTrafficShapingController.PerformChecking - dispatch, threshold selection, spacing and ONE
+		// iteration of the pacing loop.  Trace: (1,[arg;v]) timeCounter.AddIfAbsent(arg,&v), (4,[v]) StoreInt64(time
+		// cell, v), (5,[old;new]) CAS attempt on the time cell, (9,[arg]) the concurrency check.
+		target{Dir: "core/hotspot", Func: "throttlingTrafficShapingController.PerformChecking", Name: "hotspot_throttle_step", LoopBody: 1,
+			Hints: hotspotQPSHints(map[string]hint{
+				"atomic.LoadInt64(lastPassTimePtr)": {"last_time", "int64"},
+			}),
+			Acts: map[string]act{
+				"c.performCheckingForConcurrencyMetric": {Tag: 9, Keep: []int{0}, Ret: hint{"conc_result", "tokres"}},
+				"timeCounter.AddIfAbsent":               {Tag: 1, Keep: []int{0, 1}, Ret: hint{"", "opaque"}},
+				"atomic.StoreInt64":                     {Tag: 4, Keep: []int{1}},
+				"atomic.CompareAndSwapInt64":            {Tag: 5, Keep: []int{1, 2}, Ret: hint{"cas_ok", "bool"}},
+			},
+			Ctors: hotspotCtors},
 	)
+}
+
+// hints shared by the two QPS controllers: the prologue of PerformChecking
+func hotspotQPSHints(more map[string]hint) map[string]hint {
+	h := map[string]hint{
+		"c.metric":                 {"", "opaque"},
+		"metric.RuleTimeCounter":   {"", "opaque"},
+		"metric.RuleTokenCounter":  {"", "opaque"},
+		"c.specificItems[arg]":     {"spec_value", "int64"},
+		"c.specificItems[arg] ok":  {"spec_existed", "bool"},
+		"util.CurrentTimeMillis()": {"now_ms", "uint64"},
+	}
+	for k, v := range more {
+		h[k] = v
+	}
+	return h
 }
